@@ -79,7 +79,7 @@ CORPUS = [
 def cases(rng: random.Random, tier: str):
     out = [dict(c, seed=3000 + i) for i, c in enumerate(CORPUS)]
     out += K.load_corpus("C08")
-    n = 600 if tier == "quick" else 5000
+    n = 1200 if tier == "quick" else 8000
     while len(out) < n + len(CORPUS):
         big = rng.random() < (0.12 if tier == "quick" else 0.3)
         g = K.rand_admg(rng, 2, 5 if big else 4)
@@ -200,6 +200,37 @@ def _union(o, c):
     return list(seen.values())
 
 
+def _exchange_kind(g, before, after, seed, n_models):
+    """Why is the exchange step  P(out | cond) -> P(out' | cond minus {c})  broken?  Decided by exact evaluation of variants:
+    'exchange:polarity'   it would be right had the new subscript the other star (the value of the condition was lost),
+    'exchange:conditions' it would be right had the remaining conditions received the new subscript as well,
+    'exchange:separation' neither (the condition should not have been exchanged: the d-separation test is insufficient)."""
+    (o1, c1), (o2, c2) = before, after
+    k2 = {C.enc(var) for var, _ in c2}
+    gone = [[var, val] for var, val in c1 if C.enc(var) not in k2]
+    if len(gone) != 1 or len(o1) != len(o2):
+        return "exchange:separation"
+    name = int(gone[0][0][1])
+
+    def with_sub(var, star):
+        subs = [(n, s_) for n, s_ in var[4] if int(n) != name] + [(name, star)]
+        return K.mkvar(var[1], subs)
+    new_star = {s_ for (v1, _), (v2, _) in zip(o1, o2) for n, s_ in v2[4]
+                if int(n) == name and not any(int(n1) == name for n1, _ in v1[4])}
+    if len(new_star) == 1:
+        st = next(iter(new_star))
+        flip = "m" if st == "p" else "p"
+        o2f = [[with_sub(v2, flip), val] if any(int(n) == name for n, _ in v2[4]) and
+               not any(int(n1) == name for n1, _ in v1[4]) else [v2, val] for (v1, _), (v2, val) in zip(o1, o2)]
+        if len({C.enc(v) for v, _ in o2f}) == len(o2f) and not _ratio_differs(g, before, (o2f, c2), seed, n_models):
+            return "exchange:polarity"
+        c2s = [[with_sub(v, st), val] if int(v[1]) != name else [v, val] for v, val in c2]
+        if c2s != c2 and len({C.enc(v) for v, _ in c2s}) == len(c2s) and \
+                not _ratio_differs(g, before, (o2, c2s), seed, n_models):
+            return "exchange:conditions"
+    return "exchange:separation"
+
+
 def _explain(case, strategy, n_models):
     """Which step of IDC* first breaks the chain  P(outcomes | conditions) = ... ?  Returns (kind, detail) with kind in
     'reassociation' (get_new_outcomes_and_conditions changed the conditional probability), 'exchange' (the line-4 exchange of
@@ -219,7 +250,8 @@ def _explain(case, strategy, n_models):
                 return "reassociation", {"level": i, "before": lv, "after": reassoc[i]}
             if i + 1 < len(levels) and in_dom(reassoc[i]) and in_dom(levels[i + 1]) and \
                     _ratio_differs(g, reassoc[i], levels[i + 1], seed, n_models):
-                return "exchange", {"level": i, "before": reassoc[i], "after": levels[i + 1]}
+                return _exchange_kind(g, reassoc[i], levels[i + 1], seed, n_models), \
+                    {"level": i, "before": reassoc[i], "after": levels[i + 1]}
     calls = [c for c in rec.get("id_star", []) if "_number_recursions" in c[1]]
     if calls and isinstance(calls[-1][2], Expression):
         event, _, est = calls[-1]
@@ -342,12 +374,12 @@ def _evaluate(case, n_models=8, with_unpatched=True):
     return {"by_order": by_order, "unpatched": r0, "fail": fail, "kind": kind, "in_domain": dom, "strategy": fail_strategy}
 
 
-COARSE = ("F11", "inherited", "reassociation", "exchange")
+COARSE = ("F11", "inherited", "reassociation", "exchange:polarity", "exchange:conditions", "exchange:separation")
 
 
 def _coarse_key(case, r):
     """finding key of the failures that are explained by an identified broken step / another listed defect"""
-    if r["kind"] in ("F11", "reassociation", "exchange"):
+    if r["kind"] in ("F11", "reassociation") or r["kind"].startswith("exchange:"):
         return json.dumps([r["kind"]])
     if r["kind"] == "inherited":
         why, detail = _explain(case, r["strategy"], 8)
